@@ -297,7 +297,7 @@ fn check_widths(rep: &Report) {
 }
 
 fn run(rep: &Report) {
-    rep.set_rule("values: every u64 boundary 2^(8k-1), 2^(8k) ±{0,1,2} plus the dense range [0,2^27) (quick) / [0,2^32) (thorough) through every encoder/decoder against the harness codec; heavy places (generator serialiser, length predictor, validated coin id) on boundaries + [0,2^16) (quick) / [0,2^20) (thorough); all atoms of length <= 10 over bytes {00,01,7f,80,ff} through sanitize_uint(4|8) and every FromClvm integer decoder. distinct = distinct values / atoms whose reference class was exercised");
+    rep.set_rule("values: every u64 boundary 2^(8k-1), 2^(8k) ±{0,1,2} plus the dense range [0,2^27) (quick) / [0,2^32) (thorough) through every encoder/decoder against the harness codec; heavy places (generator serialiser, length predictor, validated coin id) on boundaries + [0,2^16) (quick) / [0,2^20) (thorough); all atoms of length <= 10 over bytes {00,01,7f,80,ff} through sanitize_uint(4|8) and every FromClvm integer decoder; 45 boundary integers (12 primitive types, BigInt, BigInt beyond 128 bits) through an encoder that keeps the trait's default integer routines. distinct = distinct values / atoms whose reference class was exercised");
     rep.assume("reference codec in mc::sx (enc_u64/enc_i128) is the definition of the minimal two's-complement form");
     rep.assume("SHA-256 from the sha2 crate");
 
@@ -409,11 +409,67 @@ fn run(rep: &Report) {
             rep.violation(&format!("C11/atom/{site}"), json!({"kind":"atom","atom": hex::encode(&atom)}), d);
         }
     }
+    default_encoder_section(rep);
     rep.sample(json!({"atom": "00ffffffff", "class_width4": "Value(4294967295)", "class_width8": "Value(4294967295)"}));
     rep.sample(json!({"atom": "0001", "class": "Redundant -> must be an error"}));
     rep.extra("atoms_max_len", json!(maxlen));
     if rep.tier == Tier::Quick {
         rep.extra("note", json!("quick tier: dense range [0,2^27); thorough covers [0,2^32)"));
+    }
+}
+
+/// an encoder that keeps the trait's DEFAULT integer routines (`ClvmEncoder::encode_bigint`), which
+/// the allocator overrides: the bytes it produces for an integer are what TreeHasher hashes
+#[derive(Clone)]
+struct RawNode(Vec<u8>);
+struct RawEncoder;
+impl ToClvm<RawEncoder> for RawNode {
+    fn to_clvm(&self, _e: &mut RawEncoder) -> Result<RawNode, clvm_traits::ToClvmError> {
+        Ok(self.clone())
+    }
+}
+impl clvm_traits::ClvmEncoder for RawEncoder {
+    type Node = RawNode;
+    fn encode_atom(&mut self, atom: clvm_traits::Atom<'_>) -> Result<RawNode, clvm_traits::ToClvmError> {
+        Ok(RawNode(atom.as_ref().to_vec()))
+    }
+    fn encode_pair(&mut self, first: RawNode, rest: RawNode) -> Result<RawNode, clvm_traits::ToClvmError> {
+        Ok(RawNode([vec![0xff], first.0, rest.0].concat()))
+    }
+}
+
+fn default_encoder_section(rep: &Report) {
+    use clvm_traits::ClvmEncoder;
+    let mut vals: Vec<i128> = vec![0, 1, -1, 0x7f, 0x80, 0xff, 0x100, -0x80, -0x81, 0x7fff, 0x8000, -0x8000, -0x8001, i128::MAX, i128::MIN];
+    for k in [31u32, 32, 63, 64, 126] {
+        for d in [-1i128, 0, 1] {
+            vals.push((1i128 << k) + d);
+            vals.push(-(1i128 << k) + d);
+        }
+    }
+    macro_rules! prim {
+        ($v:expr, $want:expr, $($t:ty),*) => {$(
+            if let Ok(x) = <$t>::try_from($v) {
+                rep.eval();
+                match catch(|| x.to_clvm(&mut RawEncoder).map(|n| n.0).map_err(|e| format!("{e:?}"))) {
+                    Ok(Ok(b)) if b == $want => rep.outcome("default-encoder/primitive ok"),
+                    other => rep.violation(concat!("C11/default-encoder/ToClvm<", stringify!($t), ">"), json!({"kind": "default-encoder", "value": $v.to_string()}), format!("{} as {} through an encoder with the default integer routines: {:?}, canonical {}", $v, stringify!($t), other.map(|r| r.map(hex::encode)), hex::encode(&$want))),
+                }
+            }
+        )*};
+    }
+    for v in &vals {
+        let want = enc_i128(*v);
+        prim!(*v, want, u8, u16, u32, u64, u128, usize, i8, i16, i32, i64, i128, isize);
+        for shift in [0u32, 130] {
+            let b: BigInt = BigInt::from(*v) << shift;
+            let want = if b == BigInt::from(0) { vec![] } else { b.to_signed_bytes_be() };
+            rep.eval();
+            match catch(|| RawEncoder.encode_bigint(b.clone()).map(|n| n.0).map_err(|e| format!("{e:?}"))) {
+                Ok(Ok(got)) if got == want => rep.outcome("default-encoder/bigint ok"),
+                other => rep.violation("C11/default-encoder/encode_bigint", json!({"kind": "default-encoder", "value": b.to_string()}), format!("BigInt {b}: default encode_bigint gives {:?}, canonical {}", other.map(|r| r.map(hex::encode)), hex::encode(&want))),
+            }
+        }
     }
 }
 
@@ -423,6 +479,11 @@ fn replay(case: &Value) -> String {
         Some("value") => format!("{:?}", check_cheap(case["value"].as_u64().unwrap(), &mut a)),
         Some("heavy") => format!("{:?}", check_heavy(case["value"].as_u64().unwrap())),
         Some("atom") => format!("{:?}", check_atom(&hex::decode(case["atom"].as_str().unwrap()).unwrap(), &mut a)),
+        Some("default-encoder") => {
+            use clvm_traits::ClvmEncoder;
+            let b: BigInt = case["value"].as_str().unwrap().parse().unwrap();
+            format!("BigInt {b}: default encode_bigint -> {:?}", RawEncoder.encode_bigint(b.clone()).map(|n| hex::encode(n.0)).map_err(|e| format!("{e:?}")))
+        }
         _ => "width cases are re-run by the check itself".into(),
     }
 }
